@@ -952,7 +952,19 @@ class W20:
         data = bytes.fromhex(scn["input"])
         # library side, built under the same enumeration draw as the CLI's own build
         FS.reset_epoch()
-        tree = Multidecoder(build_registry(kwdir) if kwdir else None).scan(data)
+        md = Multidecoder(build_registry(kwdir) if kwdir else None)
+        # The library's own scan runs under the deterministic step limit: whether scan terminates on
+        # these bytes is C01's subject, not C20's; without a tree there is nothing for the CLI to be
+        # compared with and the scenario ends here.
+        try:
+            with lib_run(w, -1), watchdog(OP_LIMIT):
+                tree = md.scan(data)
+        except kernel.StepLimitExceeded:
+            self.counters["library_scan_hit_step_limit"] = 1
+            self.events.append({"nodes": 0, "skipped": "library scan exceeded the step limit (does not terminate on this input)"})
+            return {"violations": self.violations, "counters": self.counters, "events": self.events}
+        except HangDetected:
+            raise Harness("stall: library scan in C20 world")
         ctree = model.canon(tree)
         nn = model.count_nodes(ctree)
         self.counters["nodes_max"] = nn
